@@ -13,7 +13,7 @@ VERIF = os.path.dirname(os.path.dirname(os.path.abspath(__file__)))
 class FuncDesc:
     def __init__(self, key, src, name, sig, cls=None, cls_ordinal=0, ordinal=0, ret='void', ret_base=None, ret_ref=False,
                  params=None, bases=None, static=False, typemap=None, consts=None, lambdas=None, env=None, base_alias=None,
-                 must_fire=(), family=None, typenames=(), templates=(), self_cls=None, ctor_init=None, selfname='self', as_base=False, lead_base=(), targs_as_args=False, call_base=None, params_complete=False, template=None):
+                 must_fire=(), family=None, typenames=(), templates=(), self_cls=None, ctor_init=None, selfname='self', as_base=False, lead_base=(), targs_as_args=False, call_base=None, params_complete=False, template=None, local_vectors_grow=False):
         self.key, self.src, self.name, self.sig = key, src, name, sig
         self.cls, self.cls_ordinal, self.ordinal = cls, cls_ordinal, ordinal
         self.ret, self.ret_base, self.ret_ref = ret, ret_base, ret_ref
@@ -34,6 +34,7 @@ class FuncDesc:
         self.selfname = selfname
         self.as_base = as_base
         self.lead_base = tuple(lead_base)
+        self.local_vectors_grow = local_vectors_grow
         self.targs_as_args = targs_as_args
         self.call_base = call_base
         self.params_complete = params_complete
@@ -238,6 +239,7 @@ class UnitBuilder:
         ctx.base_alias = fd.base_alias
         ctx.lambda_cfg = fd.lambdas
         ctx.selfname = fd.selfname
+        ctx.local_vectors_grow = getattr(fd, 'local_vectors_grow', False)
         ctx.pack = pack
         for p, t in fd.params.items():
             ctx.env[p] = t
